@@ -23,3 +23,14 @@ package retained
 //@ modifies ghost(s.$msg), ghost(s.$ops)
 //@ ensures s.$ops == old(s.$ops) + 1
 //@ ensures forall t string :: s.$msg[t] == (t == topicName ? nil : old(s.$msg[t]))
+
+// GetMatchedMessages hands out copies of the kept messages that match the filter (the caller may edit them).
+//@ func (Store).GetMatchedMessages
+//@ params s, topicFilter
+//@ modifies ghost(s.$gets), ghost(s.$lastGet)
+//@ ensures s.$gets == old(s.$gets) + 1 && s.$lastGet == topicFilter
+//@ ensures forall i int :: 0 <= i && i < len(result) ==> result[i] != nil && isfresh(result[i])
+//@ ensures forall i int, j int :: 0 <= i && i < j && j < len(result) ==> result[i] != result[j]
+// $gets counts the GetMatchedMessages calls, $lastGet is the filter of the last one.
+//@ ghost field (Store).gets int
+//@ ghost field (Store).lastGet string
